@@ -2,7 +2,7 @@
 import ast
 import os
 import re as _re
-from typing import Set, List
+from typing import Set, List, Dict
 
 from ..loader import AnalysisError, norm_stmt, walk_own
 from ..consteval import ConstEval
@@ -142,6 +142,28 @@ def symbols(program) -> List[str]:
     return out
 
 
+def valid_keys(program) -> Set[str]:
+    """every key the mass tables know: symbols, <mass number><symbol>, and the literal aliases the table builder adds"""
+    path = os.path.join(program.pkg_dir, 'data', 'chem.txt')
+    out, sym = set(), None
+    with open(path) as fh:
+        for line in fh:
+            if line.startswith('Atomic Symbol'):
+                sym = line.split('=')[1].strip()
+                out.add(sym)
+            elif line.startswith('Mass Number') and sym:
+                out.add(line.split('=')[1].strip() + sym)
+    try:
+        f = program.func('peptacular.element_setup:get_isotopic_atomic_masses')
+        for x in walk_own(f.node):
+            if isinstance(x, ast.Assign) and isinstance(x.targets[0], ast.Subscript) and \
+                    isinstance(x.targets[0].slice, ast.Constant) and isinstance(x.targets[0].slice.value, str):
+                out.add(x.targets[0].slice.value)
+    except KeyError:
+        pass
+    return out
+
+
 def token_language(ctx, rep, clause):
     program = ctx.program
     ce = ConstEval(program)
@@ -270,6 +292,98 @@ def accumulate(ctx, rep, clause):
                f'`{norm_stmt(st)}` overwrites an earlier count of the same element: parsing is no longer additive '
                f'(C2C3 would have 3 carbons)', f.loc(st), clause)
     rep.floor('ACC', 'stores into formula result dictionaries', n, 5)
+
+
+_CASE_METHODS = {'upper': str.upper, 'lower': str.lower, 'capitalize': str.capitalize, 'swapcase': str.swapcase,
+                 'casefold': str.casefold}
+
+
+def verbatim_keys(ctx, rep, clause):
+    """the key a component is stored under is the text that was matched: on its way from the match to the store it
+    passes through no spelling table and no case conversion that changes a valid element / isotope symbol.  (The writer
+    emits every key verbatim, so a parser that re-spells `2H` as `D` cannot give the composition back.)"""
+    program = ctx.program
+    valid = valid_keys(program)
+    mod = program.module(CU)
+    top: Dict[str, ast.AST] = {}
+    for st in mod.tree.body:
+        if isinstance(st, ast.Assign) and len(st.targets) == 1 and isinstance(st.targets[0], ast.Name):
+            top[st.targets[0].id] = st.value
+        elif isinstance(st, ast.AnnAssign) and isinstance(st.target, ast.Name) and st.value is not None:
+            top[st.target.id] = st.value
+    n = 0
+    for fname in ('parse_chem_formula', '_parse_condensed_chem_formula', '_parse_isotope_component',
+                  '_parse_split_chem_formula'):
+        f = program.func(f'{CU}:{fname}')
+        ret = {r.value.id for r in walk_own(f.node) if isinstance(r, ast.Return) and isinstance(r.value, ast.Name)}
+        defs: Dict[str, List[ast.AST]] = {}
+        for x in walk_own(f.node):
+            if isinstance(x, ast.Assign):
+                for t in x.targets:
+                    if isinstance(t, ast.Name):
+                        defs.setdefault(t.id, []).append(x.value)
+            elif isinstance(x, ast.AugAssign) and isinstance(x.target, ast.Name):
+                defs.setdefault(x.target.id, []).append(x.value)
+            elif isinstance(x, ast.AnnAssign) and isinstance(x.target, ast.Name) and x.value is not None:
+                defs.setdefault(x.target.id, []).append(x.value)
+        keys = []
+        for x in walk_own(f.node):
+            if isinstance(x, ast.Assign) and isinstance(x.targets[0], ast.Subscript) and \
+                    isinstance(x.targets[0].value, ast.Name) and x.targets[0].value.id in ret:
+                keys.append((x, x.targets[0].slice))
+            elif isinstance(x, ast.AugAssign) and isinstance(x.target, ast.Subscript) and \
+                    isinstance(x.target.value, ast.Name) and x.target.value.id in ret:
+                keys.append((x, x.target.slice))
+            elif isinstance(x, ast.Call) and isinstance(x.func, ast.Attribute) and x.func.attr == 'setdefault' and \
+                    isinstance(x.func.value, ast.Name) and x.func.value.id in ret and x.args:
+                keys.append((x, x.args[0]))
+        for site, key in keys:
+            # definition closure of the key expression
+            exprs, seen, work = [key], set(), [key]
+            while work:
+                e = work.pop()
+                for y in ast.walk(e):
+                    if isinstance(y, ast.Name) and y.id in defs and y.id not in seen and y.id not in ret:
+                        seen.add(y.id)
+                        exprs += defs[y.id]
+                        work += defs[y.id]
+            bad = None
+            for e in exprs:
+                for y in ast.walk(e):
+                    table = None
+                    if isinstance(y, ast.Call) and isinstance(y.func, ast.Attribute) and y.func.attr == 'get' and y.args:
+                        table = y.func.value
+                    elif isinstance(y, ast.Subscript) and isinstance(y.value, ast.Name) and y.value.id not in ret:
+                        table = y.value
+                    if table is not None:
+                        lit = table
+                        if isinstance(lit, ast.Name):
+                            lit = (defs.get(lit.id) or [None])[0] if lit.id in defs and len(defs[lit.id]) == 1 else \
+                                top.get(lit.id)
+                        if isinstance(lit, ast.Dict) and all(isinstance(k, ast.Constant) and isinstance(v, ast.Constant)
+                                                            for k, v in zip(lit.keys, lit.values)):
+                            moved = [(k.value, v.value) for k, v in zip(lit.keys, lit.values)
+                                     if k.value in valid and v.value != k.value]
+                            if moved:
+                                bad = f'`{norm_stmt(y)[:70]}` re-spells the valid symbol {moved[0][0]!r} as {moved[0][1]!r}'
+                    if isinstance(y, ast.Call) and isinstance(y.func, ast.Attribute) and y.func.attr in _CASE_METHODS \
+                            and not y.args:
+                        moved = sorted(v for v in valid if _CASE_METHODS[y.func.attr](v) != v)
+                        if moved:
+                            bad = f'`{norm_stmt(y)[:70]}` changes the valid symbol {moved[0]!r}'
+                    if isinstance(y, ast.Call) and isinstance(y.func, ast.Attribute) and y.func.attr == 'replace' and \
+                            len(y.args) >= 2 and all(isinstance(a, ast.Constant) and isinstance(a.value, str)
+                                                     for a in y.args[:2]) and y.args[0].value:
+                        moved = sorted(v for v in valid if y.args[0].value in v and y.args[0].value != y.args[1].value)
+                        if moved:
+                            bad = f'`{norm_stmt(y)[:70]}` changes the valid symbol {moved[0]!r}'
+            n += 1
+            ob(rep, 'PROV', f.fq, f'`{norm_stmt(site)[:60]}`: the key is the matched text', bad is None,
+               'no spelling table or case conversion between the match and the store',
+               f'{bad}: the writer emits that key verbatim, so writing a composition that holds it and parsing the '
+               f'string back gives a different composition (and two distinct keys are merged into one)',
+               f.loc(site), clause)
+    rep.floor('PROV', 'component keys followed from the store back to the match', n, 5)
 
 
 def _under_not_in(f, st, d, k) -> bool:
@@ -477,6 +591,7 @@ def check(ctx, rep):
     token_language(ctx, rep, 'C15a')
     predicates(ctx, rep, 'C15b')
     accumulate(ctx, rep, 'C15c')
+    verbatim_keys(ctx, rep, 'C15a')
     writer_and_mass(ctx, rep, 'C15d')
     glycan_tokenizer(ctx, rep, 'C15e')
     from .common import value_preserving_rule, self_accumulation_rule
